@@ -59,6 +59,16 @@ def cfg_list(tier, seed):
     c.append(dict(name="single-n3-queue-of-1", streams=[S(0o1, X, 65, 3)], strays=False, maxq=1, kinds=AG))
     c.append(dict(name="2-senders-same-id-queue-of-2", streams=[S(0o1, X, 65, 2), S(0o2, X, 66, 2)], strays=False, maxq=2, kinds=AG))
     c.append(dict(name="single-n3-again", streams=[S(0o1, X, 65, 3)], strays=False, kinds=ALL_KINDS + ("again",), empty=True))
+    # the application toggles `fragmentation` off and on (once, at any moment): waiting frames are carried over, duplicates of them
+    # must still be refused
+    c.append(dict(name="single-n2-toggle", streams=[S(0o1, X, 65, 2)], strays=False, toggle=True))
+    c.append(dict(name="2-senders-same-id-toggle", streams=[S(0o1, X, 65, 2), S(0o2, X, 66, 2)], strays=False, toggle=True, kinds=("next", "skip", "twice", "rewind")))
+    # message types that look like a fragment counter (1, 2: the reserved byte of a finished message's LAST fragment) with a queue that
+    # refuses the finished message (full, or the same message still unread) - and the application reading in between
+    c.append(dict(name="type1-n2-queue-of-1", streams=[S(0o1, X, 1, 2)], strays=False, maxq=1, kinds=AG))
+    c.append(dict(name="type2-n3-queue-of-1", streams=[S(0o1, X, 2, 3)], strays=False, maxq=1, kinds=AG))
+    c.append(dict(name="type1-n2-again", streams=[S(0o1, X, 1, 2)], strays=False, kinds=ALL_KINDS + ("again",)))
+    c.append(dict(name="type2-n3-again", streams=[S(0o1, X, 2, 3)], strays=False, kinds=ALL_KINDS + ("again",)))
     if q:
         # the largest message of the quantifier (7 fragments, 149 bytes - more than the 144 a node's own sender produces)
         c.append(dict(name="single-n7", streams=[S(0o1, X, 65, 7)], strays=False, kinds=("next", "skip", "twice")))
@@ -73,7 +83,7 @@ def cfg_list(tier, seed):
         x.update(seed=seed, depth=dq, part="queue")
     # through a real node's update(): the configurations that exercise every kind of event
     nodecfg = []
-    for name in ("2-senders-same-id", "single-n4-strays", "blank-cache-id", "3-senders", "single-n2-queue-of-1", "single-n3-again"):
+    for name in ("2-senders-same-id", "single-n4-strays", "blank-cache-id", "3-senders", "single-n2-queue-of-1", "single-n3-again", "type1-n2-queue-of-1", "single-n2-toggle"):
         x = dict([y for y in c if y["name"] == name][0])
         x.update(part="node", depth=dn)
         nodecfg.append(x)
@@ -144,12 +154,14 @@ class Cfg:
         if self.unfrag_empty is not None and not hs.used[ns + 1]:
             ev.append(("unfrag0",))
         ev.append(("deq",))
+        if self.d.get("toggle") and not hs.toggled:
+            ev.append(("toggle",))
         return ev
 
 
 class HS:
     """harness + model side of a state (all values immutable)"""
-    __slots__ = ("todo", "swapped", "rewound", "used", "handed", "prev", "last", "again")
+    __slots__ = ("todo", "swapped", "rewound", "used", "handed", "prev", "last", "again", "toggled")
 
     def __init__(self, cfg):
         self.todo = tuple(tuple(range(len(cfg.streams[k]["frames"]))) for k in range(cfg.n_reg))
@@ -160,6 +172,7 @@ class HS:
         self.again = (False,) * cfg.n_reg
         self.handed = (0,) * len(cfg.streams)
         self.prev = ()
+        self.toggled = False
 
     def copy(self):
         n = HS.__new__(HS)
@@ -327,12 +340,22 @@ def step(st, ev, cfg, pid=PID):
     elif kind == "unfrag0":
         sends = [cfg.streams[cfg.unfrag_empty]["frames"][0]]
         hs.used = _set(hs.used, len(cfg.stray_events) + 1, True)
+    elif kind == "toggle":
+        hs.toggled = True
     elif kind != "deq":
         raise HarnessError("unknown event %r" % (ev,))
 
     outcome = kind
     try:
         rets = [deliver(st, wr) for wr in sends]
+        if kind == "toggle":
+            # the application switches fragmentation off and on again (documented attribute): the queue object is rebuilt
+            # twice, the frames waiting in it are carried over
+            if st.pack is None:
+                st.q = H.m_structs.FrameQueueFrag(H.m_structs.FrameQueue(st.q))
+            else:
+                st.pack[1].fragmentation = False
+                st.pack[1].fragmentation = True
         if kind == "deq":
             got = queue_of(st).dequeue() if st.pack is None else st.pack[1].read()
             want = hs.prev[0] if hs.prev else None
@@ -364,6 +387,8 @@ def step(st, ev, cfg, pid=PID):
         else:
             if hs.handed[i]:
                 shape = "dup-stream-redelivered" if i < cfg.n_reg and hs.rewound[i] else "dup-delivered-again"
+                if shape == "dup-stream-redelivered" and any(cfg.judge.match(r0) == i for r0 in hs.prev):
+                    shape = "dup-stream-accepted-while-first-copy-unread"  # the queue's own duplicate test sees both copies
                 v("splice:" + shape, "message %s (id %d) becomes available a second time" % (cfg.streams[i]["label"], rec[2]))
                 outcome = kind + ":delivers-AGAIN"
             else:
@@ -411,8 +436,10 @@ def w_end_to_end(item, rep):
     seed, cases = item
     for case in cases:
         obs = c05.run_unicast(case)
-        sent = (case["src"], case["dst"], case["mtype"], obs["msg"])
-        sent_all = [sent] + ([(case["src"], case["dst"], case["second"][1], obs["msg2"])] if case.get("second") and "msg2" in obs else [])
+        mc = case.get("mcast_level") is not None
+        to = 0o100 if mc else case["dst"]
+        sent = (case["src"], to, case["mtype"], obs["msg"])
+        sent_all = [sent] + ([(case["src"], to, case["second"][1], obs["msg2"])] if case.get("second") and "msg2" in obs else [])
         rep.case()
         rep.traces += 1
         rep.transitions += obs["npkts"]
@@ -420,7 +447,7 @@ def w_end_to_end(item, rep):
         bad = None
         for key, q in obs["queues"].items():
             for g in q:
-                if g not in sent_all or key != case["dst"]:
+                if g not in sent_all or (key != case["dst"] and not mc):
                     what = ("origin/type/destination" if g[3] == obs["msg"] else
                             ("shortened" if obs["msg"].startswith(g[3]) or len(g[3]) < len(obs["msg"]) else "content"))
                     bad = ("e2e:not-a-sent-message:%s:%s" % ("frag" if case["mlen"] > 24 else "single", what),
@@ -431,7 +458,7 @@ def w_end_to_end(item, rep):
                 bad = ("e2e:delivered-twice:%s" % ("frag" if case["mlen"] > 24 else "single"), "node %o dequeues the message %d times" % (key, q.count(sent)))
             if bad:
                 break
-        rep.outcome("e2e:%s:%s" % ("frag" if case["mlen"] > 24 else "single", "violation" if bad else ("delivered" if sent in obs["queues"][case["dst"]] else "nothing-delivered")))
+        rep.outcome("e2e:%s:%s%s" % ("frag" if case["mlen"] > 24 else "single", "violation" if bad else ("delivered" if sent in obs["queues"][case["dst"]] else "nothing-delivered"), ":mcast" if mc else ""))
         if bad:
             rep.violation("%s/%s" % (PID, bad[0]), bad[1], {"part": "e2e", "case": case})
 
@@ -456,15 +483,25 @@ def e2e_items(tier, seed):
     # (the origin does not notice: types below 65 are not acknowledged end to end): what the destination's application
     # gets is one of the two messages or nothing - never the head of one completed by the tail of the other
     import itertools
-    for (l1, l2) in ((30, 40), (49, 30)) if tier == "quick" else ((30, 40), (49, 30), (30, 60), (72, 72)):
+    for (l1, l2) in ((30, 40), (49, 30), (30, 60), (72, 72)) if tier == "quick" else ((30, 40), (49, 30), (30, 60), (72, 72), (25, 144), (144, 25), (96, 49)):
         nfr = (l1 + 23) // 24 + (l2 + 23) // 24
         for r_ in range(0, nfr + 1):
             for lose in itertools.combinations(range(nfr), r_):
-                if tier == "quick" and r_ > 2 and nfr > 4:
+                if r_ > (6 if tier == "quick" else 4) and nfr > 6:
                     continue
                 k += 1
                 cases.append(dict(topo="chain", src=O("11"), dst=O("0"), mlen=l1, mtype=1, frag=True, cost=(0, 2)[k % 2], lat=k % 2, api="send", seed=seed,
                                   id0=(k * 7919) & 0xFFFF, second=[l2, 1], lose=list(lose), lose_at=O("1")))
+    # the same with two fragmented MULTICASTS in a row (no frame of the sender's own in between), any subset of the frames lost on the air
+    for (l1, l2) in ((30, 40), (49, 30), (30, 60), (72, 72)) if tier == "quick" else ((30, 40), (49, 30), (30, 60), (72, 72), (25, 144), (144, 25), (96, 49)):
+        nfr = (l1 + 23) // 24 + (l2 + 23) // 24
+        for r_ in range(0, nfr + 1):
+            for lose in itertools.combinations(range(nfr), r_):
+                if r_ > (6 if tier == "quick" else 4) and nfr > 6:
+                    continue
+                k += 1
+                cases.append(dict(topo="chain", src=O("0"), dst=O("1"), mlen=l1, mtype=1, frag=True, cost=(0, 2)[k % 2], lat=0, api="send", seed=seed,
+                                  id0=(k * 7919) & 0xFFFF, second=[l2, 1], lose=list(lose), lose_at=O("0"), mcast_level=1, second_gap_ms=0))
     return [(seed, cases[i:i + 6]) for i in range(0, len(cases), 6)]
 
 
